@@ -271,6 +271,36 @@ fn post_init<T: Transport>(d: &mut AnyDriver<T>, accepted: u64, v: &mut Vec<(Str
             let _ = n.send(n.new_tx_buffer(0));
             n.disable_interrupts();
             n.enable_interrupts();
+            // Receive side: the header in front of a received frame has the negotiated form, also
+            // when the frame arrives in a buffer that has been used and recycled before (the
+            // device fills the buffer it was given back first).
+            let hl = if accepted & F_VERSION_1 != 0 { 12 } else { 10 };
+            for round in 0..3u8 {
+                let payload: Vec<u8> = (0..20u8).map(|i| 0x30 + round * 0x20 + i).collect();
+                let mut frame = vec![0u8; hl];
+                frame.extend(&payload);
+                let mut co_b = co.borrow_mut();
+                let held = co_b.held_count(0);
+                if held == 0 {
+                    break;
+                }
+                // Round 0: the buffer posted first; later rounds: the one posted last (recycled).
+                let which = if round == 0 { 0 } else { held - 1 };
+                co_b.complete_held(0, which, &frame, frame.len() as u32);
+                drop(co_b);
+                match n.receive() {
+                    Ok(buf) => {
+                        if buf.packet() != &payload[..] || buf.packet_len() != payload.len() {
+                            push(v, "net-header-size", format!("frame {} received in a {} buffer: packet() = {:x?} (packet_len {}), the device wrote a {}-byte header followed by {:x?} (VERSION_1 negotiated = {})", round, if round == 0 { "fresh" } else { "recycled" }, buf.packet(), buf.packet_len(), hl, payload, hl == 12));
+                        }
+                        let _ = n.recycle_rx_buffer(buf);
+                    }
+                    Err(e) => {
+                        push(v, "net-receive", format!("receive() = {:?} after the device delivered frame {}", e, round));
+                        break;
+                    }
+                }
+            }
         }
         AnyDriver::Rng(r) => {
             let mut b = [0u8; 8];
